@@ -124,12 +124,24 @@ def build(top, kinds, rng):
     return Series(items) if top[0] == "s" else Parallel(items)
 
 
+REPEAT = []
+
+
 def observe(circuit_con, f):
     import numpy as np
     from pyimpspec.exceptions import InfiniteImpedance, NotANumberImpedance
     try:
         with np.errstate(all="ignore"):
-            z = circuit_con.get_impedances(f)
+            f_in = np.array(f, dtype=float, copy=True)
+            z = circuit_con.get_impedances(f_in)
+            # evaluating is a pure function of the circuit and the frequencies: a second evaluation gives the same numbers and the
+            # caller's frequency array is left alone (an accumulator that aliases a child's array would show here)
+            if len(REPEAT) < 5:
+                z2 = circuit_con.get_impedances(np.array(f, dtype=float, copy=True))
+                if not np.array_equal(f_in, np.asarray(f, dtype=float)):
+                    REPEAT.append("get_impedances modified the frequency array it was given")
+                elif not (np.asarray(z).shape == np.asarray(z2).shape and np.array_equal(np.asarray(z), np.asarray(z2), equal_nan=True)):
+                    REPEAT.append("two evaluations of the same circuit at the same frequencies differ")
         return ("ok", [complex(v) for v in z])
     except InfiniteImpedance:
         return ("err", "InfiniteImpedance")
@@ -305,6 +317,9 @@ def run(rep, tier, seed, tr_errors):
                "%d cases, %d mismatches, %d shards failed" % (len(cases), len(mism), len(broken)))
     rep.oblige("law-holds-on-observed-results", not viol, "%d cases violate the pointwise law" % len(viol))
     rep.oblige("construction-routes-and-scalar-vs-array-agree", not direct, "%d failures" % len(direct))
+    rep.oblige("evaluation-is-repeatable-and-leaves-its-argument-alone", not REPEAT, "%d problems" % len(REPEAT))
+    for n_, why in enumerate(REPEAT[:2]):
+        rep.violation("repeat_%d" % n_, {"kind": "counterexample", "obligation": "the impedance is a function of the circuit and the frequencies", "input": {"observed": why}})
     rep.extra["traces_validated_against_impl"] = len(cases)
     by = {c[0]: c for c in cases}
     for j in sorted(set(viol))[:4]:
